@@ -106,7 +106,8 @@ def build_ties(pid):
     """non-blocking: the translated definitions equal the model (for all inputs) — or the translator does not
     understand the current source; reported in the evidence, never a violation by itself"""
     out = {}
-    for mod in TIES.get(pid, []):
+    import tr
+    for mod in TIES.get(pid, []) + tr.ties().get(pid, []):
         path = os.path.join(LEAN, *mod.split(".")) + ".lean"
         if not os.path.exists(path):
             continue
